@@ -127,3 +127,88 @@ class Rint_textbook(Lemma):
             'inexact': X[2] == Y[2],
             'carry': X[3] == Y[3] and not X[3],
         }
+
+
+class RealEngine_real_rint(Contract):
+    """
+    RealEngine._real_rint(x, rm): x rounded to an integer in mode rm (fixed-point rounding at n = -1 of the EXACT
+    operand).  A Float operand is rounded directly (RealFloat.round, C01); a Fraction goes through
+    mpfr_value(x, n=-1), whose round-to-odd result has its last digit at E <= -2 and therefore re-rounds at n = -1
+    like x itself: L5_core (RTO -> fine representation at scale E), L5_scale (scale E -> scale -1), Rint_textbook
+    (scale -1 -> the textbook definition on the grid of the denominator).
+    """
+    target = 'fpy2.number.engine.real:RealEngine._real_rint'
+    params = {'self': 'RealEngine', 'x': 'Float | Fraction', 'rm': 'RoundingMode'}
+    returns = 'Float'
+    properties = ['C02']
+    split = ['rm']
+    note = ('ASSUMED (axioms): the conversion primitive gmpy2.mpfr denotes its rational argument, '
+            'sem(gmpy2.mpfr)(q) = q: class (finite; zero iff q == 0), sign, and digits at scale -1 '
+            '(floor(2|q|), stickiness of 2|q|); and for every real y the digit functions at two scales cohere: '
+            'y_dig(y, k+j) = floor(y_dig(y, k) / 2^j), y_stk(y, k+j) = y_stk(y, k) or y_dig(y, k) mod 2^j != 0 '
+            '(instantiated at k = the round-to-odd position E, k+j = -1)')
+
+    def axioms(self, x, rm):
+        if cls_name(x) != 'Fraction':
+            return {}
+        y = app_id(FID['gmpy2.mpfr'], (x,))
+        E = rto_exp(y_e(y), None, -1)
+        J = pow2(-1 - E)
+        return {
+            'sem_class': not y_nan(y) and not y_inf(y) and y_zero(y) == (x == 0),
+            'sem_sign': y_neg(y) == (x < 0),
+            'sem_dig': y_dig(y, -1) == half_dig(x),
+            'sem_stk': y_stk(y, -1) == half_stk(x),
+            'dig_nonneg': y_dig(y, E) >= 0,
+            'cohere_dig': y_dig(y, -1) == fdiv(y_dig(y, E), J),
+            'cohere_stk': y_stk(y, -1) == (y_stk(y, E) or fmod(y_dig(y, E), J) != 0),
+        }
+
+    def post(self, x, rm, result):
+        r = result
+        out = {
+            'float': cls_name(r) == 'Float',
+            'ctx_real': cls_name(r._ctx) == 'RealContext',
+        }
+        if cls_name(x) == 'Float':
+            fin = fl_finite(x)
+            R = rnd_at(x._real, None, -1, rm)
+            out.update({
+                # IEEE 754 5.9: roundToIntegral of NaN is NaN, of an infinity that infinity, zeros keep their sign
+                'nan': implies(x._isnan, r._isnan and not r._isinf),
+                'inf': implies(x._isinf, r._isinf and not r._isnan and r._real._s == x._real._s),
+                'finite': implies(fin, fl_finite(r)),
+                'sign': implies(fin, r._real._s == x._real._s),
+                # the operand rounded at position -1 (spec.real.rnd_at, the C01 definition)
+                'exp': implies(fin, r._real._exp == R[0]),
+                'c': implies(fin, r._real._c == R[1]),
+                'integer': implies(fin, r._real._exp >= 0),
+                'inexact_iff_changed': implies(fin, r._real._flags.inexact == R[2]),
+                'unchanged_if_integer': implies(fin and x._real._exp >= 0,
+                                                r._real._exp == x._real._exp and r._real._c == x._real._c),
+            })
+            return out
+        # Fraction operand
+        y = app_id(FID['gmpy2.mpfr'], (x,))
+        E = rto_exp(y_e(y), None, -1)
+        D = y_dig(y, E)
+        S = y_stk(y, E)
+        s = x < 0
+        if x != 0:
+            apply_lemma('L5_core', s=s, dig=D, stk=S, A=pow2(-E), H=pow2(-2 - E), A2=pow2(1 - E), p=None, n=-1, rm=rm)
+            apply_lemma('L5_scale', s=s, D=D, S=S, J=pow2(-1 - E), h=half_dig(x), st=half_stk(x), p=None, n=-1, rm=rm)
+            apply_lemma('Rint_textbook', s=s, N=q_abs_num(x), d=frac_den(x), rm=rm)
+        T = rint_q(x, rm)
+        out.update({
+            'finite': fl_finite(r),
+            # IEEE 754 5.9 / 6.3: the sign of the operand is kept, also when the result is zero
+            'sign': r._real._s == s,
+            # the integer nearest to x in the sense of rm (textbook definition on the grid of the denominator)
+            'exp': r._real._exp == 0 or (x == 0 and r._real._c == 0),
+            'c': r._real._c == T[0],
+            'inexact_iff_changed': r._real._flags.inexact == T[1],
+        })
+        return out
+
+    def raises(self, x, rm):
+        return {}
